@@ -24,12 +24,33 @@ const (
 	sigReentrant = "memory-get-callback-write-deadlocks"
 )
 
-type Cfg struct{ CbUnlocked bool }
+// Cfg: which variant of db/memory the tree holds. CbUnlocked: Get calls back outside the store lock.
+// RangeLog: batch.DeleteRange records the range itself (Lean `mem2Impl`, ModelRange.lean) instead of a
+// Delete per key visible at call time (Lean `memImpl`, finding F5).
+type Cfg struct{ CbUnlocked, RangeLog bool }
 
-func (c Cfg) Line() string { return "cfg " + b01(c.CbUnlocked) }
+func (c Cfg) Line() string { return "cfg " + b01(c.CbUnlocked) + " " + b01(c.RangeLog) }
 
-// probeCfg asks the real db/memory whether a Get callback may write to the store.
+// probeCfg asks the real db/memory whether a Get callback may write to the store, and whether a
+// batch's DeleteRange deletes a key that reaches the store between the call and Write.
 func probeCfg() (Cfg, error) {
+	var c Cfg
+	w2, err := NewWorld(memoryBackend())
+	if err != nil {
+		return Cfg{}, err
+	}
+	defer w2.Dispose()
+	for _, o := range []Op{{K: "newbatch"}, {K: "bdelrange", End: []byte{0xff}}, {K: "put", Key: []byte{1}, Val: []byte{9}}, {K: "bwrite"}} {
+		w2.Exec(o)
+	}
+	switch out := w2.Exec(Op{K: "has", Src: "db", Key: []byte{1}}); out {
+	case "false":
+		c.RangeLog = true
+	case "true":
+	default:
+		return Cfg{}, fmt.Errorf("probe of db/memory batch.DeleteRange answered %q", out)
+	}
+	// (last: on the locked variant the call never returns and keeps the store's lock)
 	w, err := NewWorld(memoryBackend())
 	if err != nil {
 		return Cfg{}, err
@@ -38,12 +59,12 @@ func probeCfg() (Cfg, error) {
 	w.Exec(Op{K: "put", Key: []byte{1}, Val: []byte{1}})
 	switch out := w.Exec(Op{K: "getw", Src: "db", Key: []byte{1}, Key2: []byte{2}, Val: []byte{2}}); out {
 	case "val:01":
-		return Cfg{CbUnlocked: true}, nil
+		c.CbUnlocked = true
 	case "hang":
-		return Cfg{CbUnlocked: false}, nil
 	default:
 		return Cfg{}, fmt.Errorf("probe of db/memory re-entrancy answered %q", out)
 	}
+	return c, nil
 }
 
 // ---- the documented contract, Go side (mirror of `documented` in Model.lean; cross-checked
@@ -116,7 +137,24 @@ func (t *tracker) anyLive() (iters, snaps, batches bool) {
 	return
 }
 
+// bufOther: one of the four db.BufferBatch methods that panic ("should not be called")
+func (t *tracker) bufOther(o Op) bool {
+	h := -1
+	switch o.K {
+	case "bsize", "bdelrange":
+		h = o.H
+	case "has", "scan", "rscan":
+		if x, ok := bufSrc(o.Src); ok {
+			h = x
+		}
+	}
+	return h >= 0 && h < len(t.batches) && t.batches[h].buf
+}
+
 func (t *tracker) documented(o Op) bool {
+	if t.bufOther(o) {
+		return true // (mirrors `xdocumented` of the driver)
+	}
 	switch o.K {
 	case "get", "has", "iter", "scan", "rscan":
 		return t.srcOK(o.Src)
@@ -143,7 +181,7 @@ func (t *tracker) documented(o Op) bool {
 			return t.iters[o.H].valid
 		}
 		return true
-	case "reopen":
+	case "reopen", "crash":
 		i, s, b := t.anyLive()
 		return !i && !s && !b
 	case "close":
@@ -174,7 +212,7 @@ func (t *tracker) after(o Op, documented bool, ref string) {
 	case "newbatch":
 		t.batches = append(t.batches, tBatch{live: true, idx: o.Idx, buf: o.Idx && o.Wrap == "buffer"})
 	case "bdelrange":
-		if o.H < len(t.batches) && t.batches[o.H].live {
+		if o.H < len(t.batches) && t.batches[o.H].live && !t.batches[o.H].buf {
 			t.batches[o.H].hasRange = true
 		}
 	case "bwrite", "bclose":
@@ -218,7 +256,7 @@ func (t *tracker) after(o Op, documented bool, ref string) {
 			t.offRail = true
 		}
 		t.open = false
-	case "reopen":
+	case "reopen", "crash":
 		if !documented {
 			t.offRail = true
 		}
@@ -253,6 +291,8 @@ type Runner struct {
 	mu   sync.Mutex
 	cfg  Cfg
 	disk bool
+	// crashable: the pebble backends run on file systems that can simulate a power loss (op "crash")
+	crashable bool
 	res  *lib.Result
 	once sync.Once
 }
@@ -306,16 +346,48 @@ func askDeadline(d *lib.Driver, l string) (out string, err error) {
 	return out, err
 }
 
+// mayCommit: ops after which the store may hold something else than before
+func mayCommit(o Op) bool {
+	switch o.K {
+	case "put", "del", "delrange", "bwrite", "update", "getw", "xupdate", "bflush", "reopen", "flush", "crash":
+		return true
+	}
+	return false
+}
+
+const probeMaxOps = 400
+
+// withProbes inserts a full scan of the store after every op that may change it; orig[i] = index,
+// in the sequence as given, of the op that expanded op i is or follows.
+func withProbes(in []Op) (ops []Op, orig []int) {
+	if len(in) > probeMaxOps {
+		orig = make([]int, len(in))
+		for i := range in {
+			orig[i] = i
+		}
+		return in, orig
+	}
+	for i, o := range in {
+		ops, orig = append(ops, o), append(orig, i)
+		if mayCommit(o) {
+			ops, orig = append(ops, Op{K: "scan", Src: "db", probe: o.K}), append(orig, i)
+		}
+	}
+	return ops, orig
+}
+
 // Run executes ops on the three real backends and, if a driver is there, on the Lean models.
-func (rn *Runner) Run(ops []Op) (*SeqResult, error) {
+func (rn *Runner) Run(given []Op) (*SeqResult, error) {
 	sr := &SeqResult{InContract: true, Outs: map[string][]string{}}
+	ops, orig := withProbes(given)
 	var ans []string
 	lineOf := make([]int, len(ops))
 	if rn.drv != nil {
 		ls := []string{"reset"}
-		for i, o := range ops {
+		dl := driverLines(ops)
+		for i := range ops {
 			lineOf[i] = -1
-			if l := o.Line(); l != "" {
+			if l := dl[i]; l != "" {
 				lineOf[i] = len(ls)
 				ls = append(ls, l)
 			}
@@ -331,7 +403,7 @@ func (rn *Runner) Run(ops []Op) (*SeqResult, error) {
 		}
 		ans = a
 	}
-	backends := []Backend{memoryBackend(), pebble1Backend(false), pebble2Backend(rn.disk)}
+	backends := []Backend{memoryBackend(), pebble1BackendX(false, rn.crashable), pebble2BackendX(rn.disk && !rn.crashable, rn.crashable)}
 	var ws []*World
 	for _, b := range backends {
 		w, err := NewWorld(b)
@@ -348,32 +420,61 @@ func (rn *Runner) Run(ops []Op) (*SeqResult, error) {
 			w.Dispose()
 		}
 	}()
+	// The wrappers db.BufferBatch / db.SyncBatch are the same code on every backend, so a defect in them
+	// shows on all three alike. Their oracle: the same sequence with the wrapper left out (a plain indexed
+	// batch of db/memory) must answer the same, for every call the wrapper supports.
+	var plain *World
+	for _, o := range given {
+		if o.K == "newbatch" && o.Idx && o.Wrap != "" {
+			w, err := NewWorld(memoryBackend())
+			if err != nil {
+				return nil, fmt.Errorf("open memory (plain batches): %w", err)
+			}
+			w.name = "memory with plain batches"
+			plain = w
+			defer plain.Dispose()
+			break
+		}
+	}
 	tr := newTracker()
 	stopped := map[string]bool{} // pair no longer compared after an unlisted state-changing divergence
+	unmodelled := false          // an op without a model line changed the store (xupdate): the models' stores are behind
 	for i, o := range ops {
+		kind := o.K
+		if o.probe != "" {
+			kind = "state-after-" + o.probe
+		}
+		if o.K == "xupdate" {
+			unmodelled = true
+		}
 		doc := tr.documented(o)
 		cmp := tr.comparable(o)
 		var da drvAns
 		if ans != nil && lineOf[i] >= 0 {
 			da = parseDrv(ans[lineOf[i]])
 			if !da.ok {
-				return nil, fmt.Errorf("lean driver answered %q to %q", ans[lineOf[i]], o.Line())
+				return nil, fmt.Errorf("lean driver answered %q to %q", ans[lineOf[i]], driverLines(ops[:i+1])[i])
 			}
 			if da.d != doc {
 				return nil, fmt.Errorf("contract predicates drifted apart: op %d %q of %v: Go says documented=%v, Lean says %v",
-					i, o.Line(), lines(ops[:i+1]), doc, da.d)
+					orig[i], o.Line(), lines(given[:orig[i]+1]), doc, da.d)
 			}
-			if !(da.d && da.m && da.f) {
+			if !(da.d && da.m && (da.f || rn.cfg.RangeLog)) { // (the repaired batch is proved without f5Free)
 				sr.InContract = false
 			}
 			if !da.f {
 				sr.F5Left = true
 			}
+			if unmodelled && o.probe != "" {
+				da = drvAns{} // backend against backend only
+			}
 		}
 		outs := make([]string, len(ws))
 		for bi, w := range ws {
 			outs[bi] = w.Exec(o)
-			sr.Outs[w.name] = append(sr.Outs[w.name], outs[bi])
+			if o.probe == "" {
+				sr.Outs[w.name] = append(sr.Outs[w.name], outs[bi])
+			}
 			if outs[bi] == "hang" && o.K != "getw" {
 				sr.Hang = true
 			}
@@ -383,16 +484,16 @@ func (rn *Runner) Run(ops []Op) (*SeqResult, error) {
 			if outs[0] != "poisoned" {
 				sr.Compared++
 				if outs[0] != da.mem {
-					sr.Mismatches = append(sr.Mismatches, lib.Mismatch{Sig: "mem-model:" + o.K,
-						Input: map[string]any{"ops": lines(ops[:i+1]), "cfg": rn.cfg}, Model: da.mem, Impl: outs[0]})
+					sr.Mismatches = append(sr.Mismatches, lib.Mismatch{Sig: "mem-model:" + kind,
+						Input: map[string]any{"ops": lines(given[:orig[i]+1]), "cfg": rn.cfg}, Model: da.mem, Impl: outs[0]})
 				}
 			}
 			if cmp || pebModelComparable(tr, o) {
 				for bi := 1; bi <= 2; bi++ {
 					sr.Compared++
 					if outs[bi] != da.peb {
-						sr.Mismatches = append(sr.Mismatches, lib.Mismatch{Sig: "peb-model:" + ws[bi].name + ":" + o.K,
-							Input: map[string]any{"ops": lines(ops[:i+1])}, Model: da.peb, Impl: outs[bi]})
+						sr.Mismatches = append(sr.Mismatches, lib.Mismatch{Sig: "peb-model:" + ws[bi].name + ":" + kind,
+							Input: map[string]any{"ops": lines(given[:orig[i]+1])}, Model: da.peb, Impl: outs[bi]})
 					}
 				}
 			}
@@ -417,25 +518,76 @@ func (rn *Runner) Run(ops []Op) (*SeqResult, error) {
 					switch {
 					case outs[0] == "hang" && !da.m:
 						sig = sigReentrant
-					case sr.F5Left:
+					case sr.F5Left && !rn.cfg.RangeLog:
 						sig = sigBatchDR
 					}
 				}
 				if sig == "" {
-					sig = ws[a].name + "-differs-from-" + ws[b].name + ":" + o.K
+					sig = ws[a].name + "-differs-from-" + ws[b].name + ":" + kind
 					switch o.K {
-					case "get", "has", "scan", "rscan", "bsize", "value", "key", "first", "next", "prev", "seek":
+					case "get", "has", "scan", "rscan", "bsize", "value", "key", "first", "next", "prev", "seek", "psize":
+						if o.probe != "" {
+							stopped[name] = true // the stores hold different things from here on
+						}
 					default:
 						stopped[name] = true
 					}
 				}
-				sr.Divs = append(sr.Divs, Divergence{Sig: sig, A: ws[a].name, B: ws[b].name, At: i, Op: lines([]Op{o})[0],
+				opText := lines([]Op{given[orig[i]]})[0]
+				if o.probe != "" {
+					opText = "content of the store after " + opText
+				}
+				sr.Divs = append(sr.Divs, Divergence{Sig: sig, A: ws[a].name, B: ws[b].name, At: orig[i], Op: opText,
 					OutA: outs[a], OutB: outs[b], ModelOf: model})
+			}
+		}
+		// 3. wrapped against plain
+		if plain != nil {
+			skip := false
+			if h, ok := opBatch(o); ok && h < len(tr.batches) && tr.batches[h].buf {
+				// Flush exists only on the wrapper; four methods of it panic by design; after Write / Close and
+				// on a closed store the wrapper's map outlives the batch (outside the contract)
+				skip = o.K == "bflush" || tr.bufOther(o) || !tr.batches[h].live || !tr.open
+			}
+			if !(skip && (o.K == "bflush" || tr.bufOther(o))) { // those are not executed on the plain batch at all
+				po := o
+				po.Wrap = ""
+				pout := plain.Exec(po)
+				if cmp && !skip && !stopped["plain"] && outs[0] != "poisoned" && pout != "poisoned" {
+					sr.Compared++
+					if pout != outs[0] {
+						opText := lines([]Op{given[orig[i]]})[0]
+						if o.probe != "" {
+							opText = "content of the store after " + opText
+						}
+						which := "wrapped-batch"
+						if h, ok := opBatch(given[orig[i]]); ok && h < len(tr.batches) {
+							which = "syncbatch"
+							if tr.batches[h].buf {
+								which = "bufferbatch"
+							}
+						}
+						sr.Divs = append(sr.Divs, Divergence{Sig: which + "-differs-from-the-batch-it-wraps:" + kind, A: "memory", B: plain.name,
+							At: orig[i], Op: opText, OutA: outs[0], OutB: pout})
+						stopped["plain"] = true
+					}
+				}
 			}
 		}
 		tr.after(o, doc, outs[2])
 	}
 	return sr, nil
+}
+
+// opBatch: the batch handle an op works on, if any
+func opBatch(o Op) (int, bool) {
+	switch o.K {
+	case "bput", "bdel", "bdelrange", "bsize", "bwrite", "bclose", "bflush":
+		return o.H, true
+	case "get", "has", "scan", "rscan", "iter", "getw":
+		return bufSrc(o.Src)
+	}
+	return 0, false
 }
 
 func hasSig(sr *SeqResult, sig string) *Divergence {
